@@ -228,8 +228,7 @@ def main(argv=None):
         if args.tier == "thorough" and not args.json:
             from . import mutate
             extra = mutate.run_corpus(prop, args.root or DEFAULT_ROOT)
-            if extra.get("mutant_failures"):
-                raise AnalysisError("self-validation failed: " + "; ".join(extra["mutant_failures"][:5]))
+            selfval_failed = list(extra.get("mutant_failures") or [])
         if args.json:
             print(json.dumps({"findings": rep.findings, "obligations": len(rep.obligations)}))
             return 1 if new else 0
@@ -256,7 +255,14 @@ def main(argv=None):
         per = summarize(rep)
         print("%s %s: %d obligations over %d rules, %d new findings, %d known, %.2fs" % (
             prop, args.tier, len(rep.obligations), len(per), len(new), len(seen_known), wall))
-        return 1 if new else 0
+        if new:
+            return 1
+        if args.tier == "thorough" and not args.json and extra.get("mutant_failures"):
+            for mf in extra["mutant_failures"]:
+                print("SELF-VALIDATION-FAILED property=%s %s" % (prop, mf))
+            print("ANALYSIS-ERROR property=%s the checker's own mutant corpus is not fully handled (see evidence)" % prop)
+            return 2
+        return 0
     except AnalysisError as e:
         print("ANALYSIS-ERROR property=%s %s" % (prop, e))
         if not args.no_evidence and not args.json:
